@@ -613,8 +613,8 @@ pub fn run(mon: Arc<dyn Monitor>, cfg: &Config) -> i32 {
     let mut new_count: u64 = 0;
     for (sig, vs) in &new_by_sig {
         new_count += vs.len() as u64;
-        for v in vs.iter().take(3) {
-            if printed >= 40 {
+        for v in vs.iter().take(2) {
+            if printed >= 90 {
                 break;
             }
             let path = write_replay(
@@ -629,8 +629,8 @@ pub fn run(mon: Arc<dyn Monitor>, cfg: &Config) -> i32 {
             println!("  detail: {}", d);
             printed += 1;
         }
-        if vs.len() > 3 {
-            println!("  ... {} more with signature {}", vs.len() - 3, sig);
+        if vs.len() > 2 {
+            println!("  ... {} more with signature {}", vs.len() - 2, sig);
         }
     }
 
